@@ -485,6 +485,49 @@ theorem tieA_handle_downlink_macs_iter (snr : Int) (bytes : List Int) (hS : Stre
   rw [hc]
   exact h
 
+/-- `MacOps` with the regenerated `handle_downlink_macs` run on the REGENERATED iterator read through the REGENERATED
+accessors (`regenCmds`); `next_lower_datarate` from the model's tables -/
+@[instance_reducible] def genOpsU : Gen.SessionRx.MacOps RegionState where
+  next_lower rs dr := (nextLowerDatarate rs.id dr.toInt.toNat).map TieA.drOfNatT
+  handle_downlink_macs gs g rs b snr full :=
+    (regenCmds b.bytes).bind fun l => Gen.SessionMacs.Session.handle_downlink_macs gs g rs l snr full
+
+/-- `MacsOk` for that instance, on every command stream of octets -/
+theorem genOpsU_ok : @NextLowerOk genOpsU ∧ @MacsOk genOpsU Stream := by
+  refine ⟨fun _ _ => rfl, ?_⟩
+  intro gs g rs bytes snr full hS hq
+  have hl : (natsOf bytes).length = bytes.length := by simp [natsOf]
+  obtain ⟨l, hr, h⟩ := tieA_handle_downlink_macs_iter snr bytes hS gs g rs full hq
+  have e : @Gen.SessionRx.MacOps.handle_downlink_macs RegionState genOpsU gs g rs ⟨bytes⟩ snr full
+      = Gen.SessionMacs.Session.handle_downlink_macs gs g rs l snr full := by
+    show (regenCmds bytes).bind _ = _
+    rw [hr]; rfl
+  simp only [handleDownlinkMacs, hl, e]
+  exact h
+
+/-- builder U — `Session::handle_rx` (regenerated, builder N) with the regenerated `handle_downlink_macs` (builder S) fed by
+the REGENERATED `parse_downlink_mac_commands` and payload accessors is the model's `sessionHandleRx`:
+`tieA_handle_rx_accept` of C05 / C06 / C07 for the instance `genOpsU`, on every command stream, with no simulation
+hypothesis and no hand-written reading of the commands. -/
+theorem tieA_handle_rx_iter (D : Int) (gs : Gen.SessionRx.Session) (rs : RegionState) (g : Gen.SessionRx.Configuration)
+    (rx : Gen.SessionRx.RadioBuffer) (dl : List Gen.SessionRx.Downlink) (maxp snr : Int) (ign : Bool)
+    (e : Gen.SessionRx.EncryptedDataPayload)
+    (hparse : rx.as_mut_for_read.parse = some e)
+    (hw : SessWF gs) (hmax : 0 ≤ maxp ∧ maxp ≤ 255) (hwire : 0 ≤ e.fhdr.fcnt)
+    (hdec : ∀ f, Gen.SessionRx.next_fcnt_down gs.fcnt_down e.fhdr.fcnt = some f → e.validate_mic (nwkOf gs) f = true →
+      ∃ d, rx.as_mut_for_read.decrypt_in_place (some (nwkOf gs)) (some (appOf gs)) f = some d ∧ DecWF Stream d) :
+    (@Gen.SessionRx.Session.handle_rx RegionState genOpsU D gs rs g rx dl maxp snr ign).bind
+        (fun out => (respOf out.1).map (fun r => (r, sessOf out.2.1, out.2.2.1, cfgOf out.2.2.2.1, out.2.2.2.2.2.map dlOf)))
+      = (sessionHandleRx (sessOf gs) (cfgOf g) rs (dataOf gs e (decOf gs rx e)) maxp.toNat snr ign).toOption.map (expect dl D) :=
+  @tieA_handle_rx_accept genOpsU Stream genOpsU_ok.1 genOpsU_ok.2 D gs rs g rx dl maxp snr ign e hparse hw hmax hwire hdec
+
+/-- builder S's example frame through the regenerated `handle_rx`, `handle_downlink_macs`, iterator and accessors -/
+example :
+    (@Gen.SessionRx.Session.handle_rx RegionState genOpsU 4 exSess (RegionState.init .EU868) exCfg Full.exRx [] 250 3 false).map
+      (fun out => (out.1, out.2.1.uplink.pending, out.2.2.2.1.data_rate, out.2.2.2.1.tx_power))
+      = some (.DownlinkReceived 5, [3, 7, 6, 255, 3], DR._5, some 14) := by
+  rfl
+
 /-! non-vacuity: the FOpts of builder S's example frame (LinkADRReq DR5 / power 1 / mask 0x0007, DevStatusReq), then an
 RXParamSetupReq and a truncated NewChannelReq — through the regenerated iterator and accessors -/
 example : regenCmds [3, 0x51, 0x07, 0x00, 0x00, 6] = some [some (decCmd (3, [0x51, 7, 0, 0])), some (decCmd (6, []))] := by decide
@@ -502,4 +545,5 @@ example : view (.NewChannelReq ⟨[3, 0x28, 0x76, 0x84, 0x05]⟩) = some (.NewCh
 #print axioms tieA_acc_dl_channel
 #print axioms tieA_parse_downlink_mac_commands
 #print axioms tieA_handle_downlink_macs_iter
+#print axioms tieA_handle_rx_iter
 end C08
